@@ -72,4 +72,9 @@ theorem C08_tie_block_constraint (intcs : Option (List Nat)) (b : FBlock) (key :
         (TieF.gaOf addrAnalysis intcs (constructAst b.ins) key (b.ins.length + 1)) (TieM.envOf intcs) key (TieF.fblockView b n) :=
   TieF.block_tie addrAnalysis intcs b key n
 
+/-- the views of the translated functions read `isinstance(x, C)` as "x is of class C": right, because on this run no class of
+    /repo's instruction / field modules is a subclass of another one the analyses test for (`itxn` is not a `Txn`, `gitxn` not a
+    `Gtxn`; only the `intc` family shares `IntcInstruction`) -/
+theorem C08_tie_class_hierarchy : Generated.classHierarchy = PyView.classHierarchySpec := Tie.class_hierarchy_tie
+
 end Tealer.C08
